@@ -49,7 +49,7 @@ TGtPop == IsEvent("GtPop") /\ GtPop /\ (IF Ev.w = 0 THEN m'.thr = 0 ELSE m'.thr 
 TCreate == IsEvent("Create") /\ GtCreate /\ Ev.w = m.nInit + 1
 TGtStart == IsEvent("GtStart") /\ GtStart /\ Ev.w = m.thr /\ Ev.nsig >= 1
 TCopy == /\ IsEvent("Copy") /\ Copy /\ Ev.w = m.thr
-         /\ Ev.a = Min(m.inAvail, BS - m.blkLen[m.nblk])
+         /\ Ev.a = Min(m.inAvail, m.bs - m.blkLen[m.nblk])
 TPublish == /\ IsEvent("Publish") /\ Publish /\ Ev.w = m.thr
             /\ (Ev.a = 1) = (m'.pc = "blkerr")
             /\ (Ev.a = 0 => t'[Ev.w].inSize = Ev.b /\ (Ev.c = 1) = (m'.thr = 0) /\ Ev.nsig >= 1)
@@ -62,7 +62,8 @@ TWaitTimeout == IsEvent("WaitWake") /\ Ev.a = 1 /\ WaitTimeout
 TStop == IsEvent("Stop") /\ StopStep /\ m.loopI < m.nInit /\ Ev.w = m.loopI + 1 /\ Ev.nsig >= 1
 TStopDone == IsEvent("StopDone") /\ Ev.a = 0 /\ StopStep /\ m.loopI >= m.nInit
 \* re-initialisation: threads_stop(coder, true); its waiting loop has no hooks and is taken silently
-TAppReinit == IsEvent("AppReinit") /\ AppReinit
+\* a = the block_size given to the constructor this time (0: the same as before)
+TAppReinit == IsEvent("AppReinit") /\ AppReinit(IF Ev.a = 0 THEN m.bs ELSE Ev.a)
 TRStop == IsEvent("Stop") /\ RStop /\ m.loopI < m.nInit /\ Ev.w = m.loopI + 1 /\ Ev.nsig >= 1
 TRStopDone == IsEvent("StopDone") /\ Ev.a = 1 /\ RStop /\ m.loopI >= m.nInit
 TReinited == IsEvent("Reinited") /\ Ev.a = 0 /\ m.pc = "out" /\ m.given = 0 /\ m.seq = "HDR" /\ UNCHANGED vars
